@@ -967,6 +967,8 @@ func BuildIntentRequest(ri ResolvedIntent) (*sdcpb.TransactionIntent, error) {
 // ---------------------------------------------------------------- execution
 
 type HistEnv struct {
+	// NextTxID: the id of the next submitted transaction (consumed by it); "" = tx<n>
+	NextTxID string
 	Env     *Env
 	Ctx     context.Context
 	DS      *datastore.Datastore
@@ -1120,6 +1122,10 @@ func (h *HistEnv) SubmitStep(st Step) *StepResult {
 	res.Resolved = h.Model.ResolveStep(h.Uni, h.Palette, st)
 	h.txn++
 	res.TxID = "tx" + strconv.Itoa(h.txn)
+	if h.NextTxID != "" {
+		// a client that recycles transaction ids
+		res.TxID, h.NextTxID = h.NextTxID, ""
+	}
 	var reqs []*sdcpb.TransactionIntent
 	for _, ri := range res.Resolved {
 		r, err := BuildIntentRequest(ri)
